@@ -97,6 +97,47 @@ def clone (fresh : Nat → α → α) (b : Builder α) : Option (Builder α) :=
   | some l => cloneLoop fresh l 0 (new b.n)
   | none => none
 
+/-! ### `Clone::clone` with an element `Clone` that may PANIC
+
+  `T::clone` is user code: it may panic part-way through `ArrayBuilder::clone` / `ArrayConsumer::clone`.
+  Unwinding then drops the half-built clone `this` (a local of `clone`), i.e. runs ITS `Drop` on ITS
+  current state; the original (`&self`) is not touched.  The element `Clone` is modelled as
+  `Nat → α → Option α` (call number → element → copy, `none` = this call panics). -/
+
+/-- an element `Clone` that panics on its `j`-th call (calls are numbered from 0) and otherwise makes the
+    copy `fresh i x` -/
+def panicAt (fresh : Nat → α → α) (j : Nat) : Nat → α → Option α :=
+  fun i x => if i = j then none else some (fresh i x)
+
+/-- result of a `Clone::clone` whose element `Clone` may panic -/
+inductive CloneRes (σ α : Type) where
+  | done (c : σ)                   -- the clone
+  | panicked (dropped : List α)    -- `T::clone` panicked: what unwinding dropped with the half-built clone
+  | ub                             -- a never-written slot was dropped / a push on a full clone (shown unreachable)
+deriving Repr
+
+/-- the loop of `Clone::clone` with a panicking element `Clone`:
+    `for elem in self.as_slice() { this.push(elem.clone()) }` — `elem.clone()` is evaluated BEFORE the
+    push; if it panics, `this` (holding the copies pushed so far, `inited` = their number) is dropped -/
+def cloneLoopP (fresh : Nat → α → Option α) : List α → Nat → Builder α → CloneRes (Builder α) α
+  | [], _, this => .done this
+  | x :: r, i, this =>
+    match fresh i x with
+    | none =>
+      match dropped this with
+      | some d => .panicked d
+      | none => .ub
+    | some v =>
+      match push this v with
+      | .ok this' => cloneLoopP fresh r (i + 1) this'
+      | .panic => .ub
+
+/-- `Clone::clone` with a panicking element `Clone` -/
+def cloneP (fresh : Nat → α → Option α) (b : Builder α) : CloneRes (Builder α) α :=
+  match asSlice b with
+  | some l => cloneLoopP fresh l 0 (new b.n)
+  | none => .ub
+
 /-! ### histories -/
 
 /-- operations of a builder history (observations `len`/`is_full`/`as_slice` do not change the state) -/
@@ -104,12 +145,15 @@ inductive Op (α : Type) where
   | push (v : α)
   | clone                      -- clone, drop the ORIGINAL, continue with the clone
   | cloneDrop                  -- clone, drop the CLONE, continue with the original
+  | clonePanic (j : Nat)       -- clone with an element `Clone` that panics on its `j`-th call (caught);
+                               -- a clone that completes (`j ≥ len`) is dropped; continue with the original
 deriving Repr
 
 /-- what one operation shows to the caller -/
 inductive Obs (α : Type) where
   | pushed (ok : Bool)                -- `false`: the assert fired (the value is dropped by unwinding)
   | cloned (dropped : List α)         -- the elements dropped with the builder that was let go
+  | panicked (dropped : List α)       -- `T::clone` panicked inside `clone`: the copies dropped by unwinding
   | ub
 deriving Repr
 
@@ -131,6 +175,14 @@ def step (fresh : Nat → α → α) (st : Builder α × Nat) : Op α → (Build
       | some cl => ((st.1, st.2 + st.1.inited), .cloned cl)
       | none => (st, .ub)
     | none => (st, .ub)
+  | .clonePanic j =>
+    match cloneP (panicAt (fun i => fresh (st.2 + i)) j) st.1 with
+    | .panicked d => ((st.1, st.2 + d.length), .panicked d)
+    | .done c =>
+      match dropped c with
+      | some cl => ((st.1, st.2 + st.1.inited), .cloned cl)
+      | none => (st, .ub)
+    | .ub => (st, .ub)
 
 /-- run a history from a state, collecting what each step showed -/
 def run (fresh : Nat → α → α) : Builder α × Nat → List (Op α) → (Builder α × Nat) × List (Obs α)
